@@ -740,6 +740,16 @@ var umuts = []umut{
 		}
 	}},
 	{"auth-changed", func(w *world, u *ucase) { u.t.AuthoritativeASes = append(u.t.AuthoritativeASes, 0xff0000000301) }},
+	// successor AS lists that are a proper prefix / suffix / sub-sequence of the predecessor's:
+	// not "unchanged", so never a regular update (fine as a sensitive one)
+	{"core-drop-last", func(w *world, u *ucase) { dropASes(w, u, true, "last", 1) }},
+	{"auth-drop-last", func(w *world, u *ucase) { dropASes(w, u, false, "last", 1) }},
+	{"core-drop-last-k", func(w *world, u *ucase) { dropASes(w, u, true, "last", 2+w.r.Intn(2)) }},
+	{"auth-drop-last-k", func(w *world, u *ucase) { dropASes(w, u, false, "last", 2+w.r.Intn(2)) }},
+	{"core-drop-first", func(w *world, u *ucase) { dropASes(w, u, true, "first", 1) }},
+	{"auth-drop-first", func(w *world, u *ucase) { dropASes(w, u, false, "first", 1) }},
+	{"core-drop-middle", func(w *world, u *ucase) { dropASes(w, u, true, "middle", 1) }},
+	{"auth-drop-middle", func(w *world, u *ucase) { dropASes(w, u, false, "middle", 1) }},
 	{"sensitive-reissued", func(w *world, u *ucase) {
 		if ix := idxOf(&u.t, cppki.Sensitive); len(ix) > 0 {
 			i := ix[w.r.Intn(len(ix))]
@@ -855,6 +865,48 @@ func (w *world) isdChange() *ucase {
 	u.t.Votes = []int{w.r.Intn(2)}
 	u.signers = []*x509.Certificate{p.Certificates[u.t.Votes[0]]}
 	return u
+}
+
+// dropASes makes the successor's core (or authoritative) AS list the predecessor's list minus k
+// entries at the given place, at least one entry remaining.  The predecessor's list is first
+// extended (on a copy; the predecessor is not signature-checked) so that enough entries exist.
+func dropASes(w *world, u *ucase, core bool, where string, k int) {
+	if u.pred == nil {
+		return
+	}
+	p := cloneTRC(*u.pred)
+	p.Raw = u.pred.Raw
+	lst := &p.AuthoritativeASes
+	if core {
+		lst = &p.CoreASes
+	}
+	for a := addr.AS(0xff0000000400); len(*lst) < k+2; a++ {
+		dup := false
+		for _, x := range *lst {
+			dup = dup || x == a
+		}
+		if !dup {
+			*lst = append(*lst, a)
+		}
+	}
+	u.pred = &p
+	n := len(*lst)
+	var next []addr.AS
+	switch where {
+	case "last":
+		next = append(next, (*lst)[:n-k]...)
+	case "first":
+		next = append(next, (*lst)[k:]...)
+	default:
+		i := 1 + w.r.Intn(n-2)
+		next = append(append(next, (*lst)[:i]...), (*lst)[i+1:]...)
+	}
+	if core {
+		u.t.CoreASes = next
+	} else {
+		u.t.AuthoritativeASes = next
+	}
+	u.notes = append(u.notes, fmt.Sprintf("%s-ases-dropped-%s-%d", map[bool]string{true: "core", false: "auth"}[core], where, k))
 }
 
 var _ crypto.Signer
